@@ -20,6 +20,7 @@ static Plan c16_gen(uint64_t seed, int tier, uint64_t index) {
     bool psk = suite_auth_kind((uint16_t) p.get("suite")) == KK_PSK_ONLY;
     if (!psk && r.chance(1, 4)) { p.cfg["cauth"] = r.chance(1, 2) ? KK_RSA2048 : KK_EC256; }
     if (r.chance(1, 4)) { p.cfg["resume"] = 1; }
+    if (r.chance(1, 4)) { p.cfg["speak"] = 1 + (int64_t) r.below(3); }
     p.cfg["pmtu"] = PMTUS[r.below(sizeof PMTUS / sizeof PMTUS[0])];
     // swarm: which fault kinds are enabled in this run
     bool en_drop = r.chance(2, 3), en_dup = r.chance(1, 2), en_delay = r.chance(1, 2), en_replay = r.chance(1, 2);
@@ -80,6 +81,19 @@ static std::vector<Plan> c16_fixed(int tier) {
                 for (int j = 0; j < 10; j++) { p.ops.push_back(Op("areplay", 60 + j * 10, j, 0)); }
                 p.ops.push_back(Op("areplay", 300, 100, 1)); p.ops.push_back(Op("areplay", 320, 101, 1));
                 p.ops.push_back(Op("app", 400, 0, 30)); p.ops.push_back(Op("app", 420, 1, 30));
+                v.push_back(p);
+            }
+        }
+    }
+    // the side that completes first speaks at once; every single drop of a handshake datagram (the final flight included) must still heal
+    for (size_t c = 0; c < 4; c++) {
+        for (int k = 0; k < 12; k++) {
+            for (int sp = 1; sp <= (tier ? 3 : 2); sp++) {
+                Plan p; p.seed = 165000 + c * 1000 + (uint64_t) (k * 4 + sp);
+                p.cfg["ver"] = FIXED[c].ver; p.cfg["suite"] = FIXED[c].suite; p.cfg["pmtu"] = FIXED[c].pmtu; if (FIXED[c].resume) { p.cfg["resume"] = 1; }
+                p.cfg["speak"] = sp;
+                p.ops.push_back(Op("fate", k, FATE_DROP, 0));
+                p.ops.push_back(Op("app", 10, 0, 40)); p.ops.push_back(Op("app", 20, 1, 40));
                 v.push_back(p);
             }
         }
